@@ -55,8 +55,10 @@ func visitorStateReset(r *fw.Run, rule, pkg string, exceptions map[string]string
 		names = append(names, t)
 	}
 	sort.Strings(names)
+	// keyed by OwnerType.field: a visitor may keep its state in a sibling visitor of the same package (v.other.list = append(…)),
+	// and a sibling's scope-opening callback may be the one that resets it
+	uses := map[string]*fieldUse{}
 	for _, tname := range names {
-		uses := map[string]*fieldUse{}
 		var methods []*fw.FuncInfo
 		for _, fi := range p.Funcs(pkg) {
 			if fi.Decl.Recv != nil && strings.HasPrefix(fi.Name(), tname+".") {
@@ -95,7 +97,8 @@ func visitorStateReset(r *fw.Run, rule, pkg string, exceptions map[string]string
 					if v == nil {
 						return
 					}
-					if _, tn := fw.FieldOwner(info, sel); tn != tname {
+					_, tn := fw.FieldOwner(info, sel)
+					if !visitorTypes[tn] {
 						return
 					}
 					switch v.Type().Underlying().(type) {
@@ -103,15 +106,16 @@ func visitorStateReset(r *fw.Run, rule, pkg string, exceptions map[string]string
 					default:
 						return
 					}
-					u := uses[v.Name()]
+					fkey := tn + "." + v.Name()
+					u := uses[fkey]
 					if u == nil {
 						u = &fieldUse{}
-						uses[v.Name()] = u
+						uses[fkey] = u
 					}
 					if !grow {
-						localReset[v.Name()] = true
+						localReset[fkey] = true
 					}
-					if grow && !localReset[v.Name()] {
+					if grow && !localReset[fkey] {
 						u.grown, u.grownIn = true, fi.Name()
 					}
 					if !grow && resetCtx {
@@ -145,6 +149,8 @@ func visitorStateReset(r *fw.Run, rule, pkg string, exceptions map[string]string
 				return true
 			})
 		}
+	}
+	{
 		var fields []string
 		for f := range uses {
 			fields = append(fields, f)
@@ -156,12 +162,12 @@ func visitorStateReset(r *fw.Run, rule, pkg string, exceptions map[string]string
 				continue
 			}
 			n++
-			key := "state-reset/" + tname + "." + f
-			if why, ok := exceptions[tname+"."+f]; ok {
-				r.Pass(rule, key, "-", "visitor state "+tname+"."+f+" (exempt: "+why+")", false)
+			key := "state-reset/" + f
+			if why, ok := exceptions[f]; ok {
+				r.Pass(rule, key, "-", "visitor state "+f+" (exempt: "+why+")", false)
 				continue
 			}
-			r.Check(u.reset, rule, key, "-", "visitor state "+tname+"."+f+" (grown in "+u.grownIn+") is reset when a document / operation / fragment definition is entered",
+			r.Check(u.reset, rule, key, "-", "visitor state "+f+" (grown in "+u.grownIn+") is reset when a document / operation / fragment definition is entered",
 				"the field accumulates entries during a walk and no scope-opening callback (EnterDocument, EnterOperationDefinition, EnterFragmentDefinition, or a helper they call) re-initialises it: a validator/normalizer that is reused (they are pooled) carries entries of the previous document into the next one — a valid operation is rejected, or an index into the new document is out of range")
 		}
 	}
